@@ -370,4 +370,21 @@ void rcu_list<T, M, Alloc>::emplace_back"""}]},
     {"name": "tv-trigger-inactive-sets", "props": ["C11"], "edits": [{"file": "gmlc/concurrency/TriggerVariable.hpp",
         "old": "        if (!activated.load()) {\n            return false;\n        }\n        std::lock_guard<std::mutex> lock(triggerLock);\n        triggered.store(true);",
         "new": "        std::lock_guard<std::mutex> lock(triggerLock);\n        triggered.store(true);\n        if (!activated.load()) {\n            return false;\n        }"}]},
+
+    # ---------------------------------------------------------------- tripwire
+    {"name": "tw-store-relaxed", "props": ["C19"], "edits": [{"file": "gmlc/concurrency/TripWire.hpp",
+        "old": "lineTrigger->store(true, std::memory_order_release);", "new": "lineTrigger->store(true, std::memory_order_relaxed);"}]},
+    {"name": "tw-load-relaxed", "props": ["C19"], "edits": [{"file": "gmlc/concurrency/TripWire.hpp",
+        "old": "return lineDetector->load(std::memory_order_acquire);", "new": "return lineDetector->load(std::memory_order_relaxed);"}]},
+    {"name": "tw-trip-in-ctor", "props": ["C19"], "edits": [{"file": "gmlc/concurrency/TripWire.hpp",
+        "old": "explicit TripWireTrigger(TriplineType line): lineTrigger(std::move(line)) {}",
+        "new": "explicit TripWireTrigger(TriplineType line): lineTrigger(std::move(line)) { lineTrigger->store(true, std::memory_order_release); }"}]},
+    {"name": "tw-original-defect", "props": ["C19"], "edits": [{"file": "gmlc/concurrency/TripWire.hpp",
+        "old": "        if (lineTrigger) {\n            lineTrigger->store(true, std::memory_order_release);\n        }",
+        "new": "        lineTrigger->store(true, std::memory_order_release);"}]},
+    {"name": "tw-index-unchecked", "props": ["C19"], "edits": [{"file": "gmlc/concurrency/TripWire.hpp",
+        "old": "return triplines.at(index);", "new": "return triplines[index % triplines.size()];"}]},
+    {"name": "tw-move-keeps-duty", "props": ["C19"], "edits": [{"file": "gmlc/concurrency/TripWire.hpp",
+        "old": "    TripWireTrigger(TripWireTrigger&& twt) = default;",
+        "new": "    TripWireTrigger(TripWireTrigger&& twt): lineTrigger(twt.lineTrigger) {}"}]},
 ]
